@@ -20,7 +20,7 @@ func init() {
 		Run:   runC09,
 		Explanation: "C09.layout: the end-relative separator tests of date.DefaultParser are turned into a decision table over (byte at len-3 is '-', len-5, len-6, RuleDisableBasic); the accepted layout language L_acc = pattern ∩ (continue valuations) is computed on the DFA of the regexp constant and must satisfy L_acc ⊆ D{4,9}-DD-DD ∪ D{4,9}DDDD (no half-separated form) and Real ⊆ L_acc, Real being the checker's own real-calendar-date language (Gregorian leap rule over decimal digits, self-checked by counting 3 652 425 words of length 8). " +
 			"C09.valid / C09.comp: DefaultParser evaluated on a text of the extended layout with the match returning opaque captures, Atoi(capture k) an opaque number, New and Date()/Year()/Month()/Day() uninterpreted; the comparisons between a component of New(…) and a parsed number are the atoms of a decision tree: the value accepted is New(num 1, num 2, num 3), and it is accepted exactly on the valuation where year, month and day were each compared with the number of the matching capture and found equal — every other valuation ends in an error, and an accepting valuation that never asked about a component is a violation. " +
-			"S-ERRZERO, S-WRAP, C18.L for package date. The guard tree is extracted for the extended and basic layouts with 4- and 9-digit years and with RuleDisableBasic clear and set (basic layout under the rule: no accepting valuation); the skeleton of date.pattern is ^<1>[-]<2>[-]<3>$.",
+			"Under RuleDisableBasic no text of the basic layout reaches another outcome than ErrBasicFormatDisabled, also on the failing side of the calendar guard (a second table extracted with the guard failing: the rule is decided before the calendar). S-ERRZERO, S-WRAP, C18.L for package date. The guard tree is extracted for the extended and basic layouts with 4- and 9-digit years and with RuleDisableBasic clear and set (basic layout under the rule: no accepting valuation); the skeleton of date.pattern is ^<1>[-]<2>[-]<3>$.",
 		NotDecided:  []string{"time.Date∘Time.Date is the identity on real dates (trusted summary)", "a validity guard written as an explicit days-in-month table is outside the enumerated idioms and would be reported undecided"},
 		Assumptions: []string{"time.Date normalises out-of-range components and is the identity on in-range ones", "strconv.Atoi is exact on digit strings of at most 9 digits"},
 		Technique:   "regular-language inclusion on DFAs + taint/sanitizer dominator rule over go/ssa",
@@ -85,6 +85,7 @@ func realDateLanguage(sep string) (real, leap, nonleap, years string) {
 type dateLayout struct {
 	sp                       *lang.Space
 	acc0, acc1, disabled     *lang.D // accepted with rule bit clear / set; rejected with ErrBasicFormatDisabled (bit set)
+	other1                   *lang.D // rejected with any other error although the rule bit is set
 	realExt, realBasic, real *lang.D
 	pattern                  *lang.D
 	leaves                   int
@@ -93,6 +94,12 @@ type dateLayout struct {
 
 // dateLayoutLanguages extracts the layout decision table of date.DefaultParser and turns it into languages.
 func dateLayoutLanguages(e *Env, rule string, extra ...string) *dateLayout {
+	return dateLayoutLanguagesG(e, rule, true, extra...)
+}
+
+// dateLayoutLanguagesG: guardPasses selects the side of the calendar round-trip guard the table is extracted for
+// (true: the written day exists; false: it does not, every leaf is then a rejection).
+func dateLayoutLanguagesG(e *Env, rule string, guardPasses bool, extra ...string) *dateLayout {
 	dp := e.Fn(rule, "date", "DefaultParser")
 	if dp == nil {
 		return nil
@@ -119,6 +126,9 @@ func dateLayoutLanguages(e *Env, rule string, extra ...string) *dateLayout {
 			return 1, true, true // `parts == nil`: the same test
 		case strings.Contains(as, "#") && strings.Contains(bs, "strconv.Atoi"), strings.Contains(bs, "#") && strings.Contains(as, "strconv.Atoi"),
 			strings.Contains(as, "New(") && strings.Contains(bs, "strconv.Atoi"), strings.Contains(bs, "New(") && strings.Contains(as, "strconv.Atoi"):
+			if !guardPasses {
+				return 1, true, true
+			}
 			return 0, true, true // calendar round-trip guard passes (decided by C09.valid)
 		}
 		return 0, false, false
@@ -179,7 +189,7 @@ func dateLayoutLanguages(e *Env, rule string, extra ...string) *dateLayout {
 			return pred.Tuple{pred.Term{Fn: "Date#0", Args: args}, pred.Term{Fn: "Date#1", Args: args}, pred.Term{Fn: "Date#2", Args: args}}, nil
 		},
 		"(go.lstv.dev/util/date.Date).Equal": func(ev *pred.Evaluator, args []pred.Val) (pred.Val, error) {
-			return pred.Const{V: constant.MakeBool(true)}, nil
+			return pred.Const{V: constant.MakeBool(guardPasses)}, nil
 		},
 	}
 	newInlined(sums, func(a []pred.Val) pred.Val { return pred.Term{Fn: "New", Args: a} })
@@ -285,7 +295,7 @@ func dateLayoutLanguages(e *Env, rule string, extra ...string) *dateLayout {
 	}
 	e.S.Ok(rule, "(oracle)", "self-check", fmt.Sprintf("real-date oracle: leap/non-leap partition the years; %d words of length 8 (years 0000-9999, basic) and %d of length 10, as the calendar demands; %d DFA states", n8, n10, out.real.States()), "")
 	empty := sp.AndNot(ds[0], ds[0])
-	out.acc0, out.acc1, out.disabled = empty, empty, empty
+	out.acc0, out.acc1, out.disabled, out.other1 = empty, empty, empty, empty
 	for _, l := range leaves {
 		if l.Err != nil {
 			e.S.Unk(rule, site, "layout table", fmt.Sprintf("valuation {%s} not decided: %v", l, l.Err), e.Pos(dp))
@@ -325,6 +335,8 @@ func dateLayoutLanguages(e *Env, rule string, extra ...string) *dateLayout {
 				out.disabled = sp.Or(out.disabled, L)
 			case kind == "ErrBasicFormatDisabled" && bs == 0:
 				e.S.Bad(rule, site, "layout table", fmt.Sprintf("valuation {%s} rejects with ErrBasicFormatDisabled although RuleDisableBasic is not set", l), e.Pos(dp), "")
+			case bs == 1:
+				out.other1 = sp.Or(out.other1, L)
 			}
 		}
 	}
@@ -384,6 +396,16 @@ func ruleC09Layout(e *Env) {
 	e.langSubset(rule, site, "every real extended date accepted (RuleDisableBasic)", sp, dl.realExt, dl.acc1, "real dates, extended layout", "accepted layouts under RuleDisableBasic")
 	e.langSubset(rule, site, "basic → ErrBasicFormatDisabled", sp, dl.realBasic, dl.disabled, "real dates, basic layout", "texts rejected with ErrBasicFormatDisabled under RuleDisableBasic")
 	e.langSubset(rule, site, "ErrBasicFormatDisabled only for the basic layout", sp, dl.disabled, shapeBasic, "texts rejected with ErrBasicFormatDisabled", "D{4,9}DDDD")
+	// "the basic form is rejected with its dedicated error when disabled": no text of the basic layout reaches another
+	// outcome under the rule, also when the written day does not exist (the table extracted for the failing side of the
+	// calendar guard): the rule is decided before the calendar
+	e.langSubset(rule, site, "basic layout under RuleDisableBasic gets no other error", sp, sp.And(dl.other1, shapeBasic), sp.AndNot(shapeBasic, shapeBasic), "basic-layout texts rejected with another error under RuleDisableBasic", "∅")
+	if df := dateLayoutLanguagesG(e, rule, false, `^[0-9]{4,9}[0-9]{4}$`); df != nil {
+		e.langSubset(rule, site, "basic layout under RuleDisableBasic gets no other error (day does not exist)", df.sp, df.sp.And(df.other1, df.extra[0]), df.sp.AndNot(df.extra[0], df.extra[0]), "basic-layout texts of a non-existing day rejected with another error under RuleDisableBasic", "∅")
+		if _, some := df.sp.Witness(df.sp.Or(df.acc0, df.acc1)); some {
+			e.S.Bad(rule, site, "guard side", "a text is accepted on the failing side of the calendar guard", e.Pos(e.F("date", "DefaultParser")), "20210230")
+		}
+	}
 	// what the regexp alone lets through beyond real dates must be stopped by the calendar guard (C09.valid)
 	if w, some := sp.Witness(sp.AndNot(dl.acc0, dl.real)); some {
 		e.S.Ok(rule, site, "needs calendar guard", fmt.Sprintf("the layout language alone contains non-dates (shortest: %q); rejecting them is the job of the guard checked by C09.valid", w), "")
